@@ -145,6 +145,18 @@ REGISTRY["C05"] = {
     "assumptions": MODEL_ASSUMPTIONS,
 }
 
+REGISTRY["C09"] = {
+    "engine": "engine_cache",
+    "theorems": [(A + "Cache", "Api.Cache.C09"), (A + "Cache", "Api.Cache.C09_history"), (A + "Cache", "Api.Cache.C09_stale_without_reset"),
+                 (A + "Cache", "Api.Cache.C09_stale_key_clash"), (A + "WiringThm", "Api.Wiring.unreset_are_known"), (A + "WiringThm", "Api.Wiring.wired")],
+    "model_is_spec": True,
+    "partial": "the abstract machine theorem needs every mutation of a history to go through a resetting path, locality of reads and faithful cache keys; "
+               "the first is discharged by `decide` on the table regenerated from the source (listed exceptions = known findings), the other two are "
+               "hypotheses (KeyFaithful is false for Union[A,B] / Union[B,A], row 13)",
+    "assumptions": ["the wiring table is produced by tools/extract_wiring.py (pure ast) and cross-checked dynamically by the targeted enumeration of this check",
+                    "`reads`, `key` and `compute` of the machine are parameters"],
+}
+
 LEVEL_NOTE = ("Trusted: Lean 4.33 kernel; axioms propext / Classical.choice / Quot.sound only (audited by #print axioms on every run, no sorry / "
               "native_decide / own axioms); the hand-written model, tied to /repo by the differential correspondence of this check (same cases to the "
               "real code and to the compiled Lean driver); tools/extract.py for the regenerated tables; CPython / typing / dataclasses. "
@@ -185,11 +197,14 @@ TEXT["C04"] = ("Kernel-checked theorems on the model of object serialization (em
                "output on generated values, and JSON-only output, serialize(v) = serialize(type(v), v) and the omission rule are checked on the real code.")
 TEXT["C05"] = ("Kernel-checked round-trip theorem (exists j, ser T v = j and deserialize T j = v) on the index-keyed fragment for every serialization and "
                "deserialization option record; both round trips (also through json.dumps / loads) are evaluated on the real code on generated values.")
+TEXT["C09"] = ("Kernel-checked theorem on an abstract cache machine: over every history (any length, evictions and resets interleaved) whose mutations go "
+               "through resetting paths every observation equals the cold-start computation; the resetting paths are a table regenerated from the source on "
+               "every run and checked by `decide`, and cross-checked on the live package by enumerating every (mutation, observation) pair against a cold start.")
 for k, v in TEXT.items():
     REGISTRY[k]["level_text"] = v
     REGISTRY[k]["level_note"] = LEVEL_NOTE
 
 # properties registered in MANIFEST.json (a property is claimed once its check is green on the unchanged tree)
-CLAIMED = ["C01", "C02", "C03", "C04", "C05", "C06", "C07", "C08", "C10", "C13", "C14", "C15", "C16", "C17", "C18"]
+CLAIMED = ["C01", "C02", "C03", "C04", "C05", "C06", "C07", "C08", "C09", "C10", "C13", "C14", "C15", "C16", "C17", "C18"]
 PENDING_REASON = "check under construction in this session (model and theorems exist, engine being registered); not yet claimed"
 NOT_CLAIMED = {f"C{i:02d}": PENDING_REASON for i in range(1, 21) if f"C{i:02d}" not in CLAIMED}
